@@ -265,6 +265,12 @@ class C01(ScheduleEnumerationMixin, EngineCheck):
 
 
 # ------------------------------------------------------------------------------------------------ C02
+def unknown_label(beh):
+    """the variant makes a switch node return a label that no case declares (declared labels are L0, L1, ...)"""
+    return 'label' in beh and not (isinstance(beh['label'], str) and beh['label'][:1] == 'L'
+                                   and beh['label'][1:].isdigit())
+
+
 @st.composite
 def collabs(draw, faults=True):
     ems = []
@@ -330,7 +336,7 @@ class C02(ScheduleEnumerationMixin, EngineCheck):
     def nontrivial(self, case, refres, obs):
         faults = bool(refres['invocations']) and (
             any(i['outcome'] not in ('ok', 'rec') for inv in refres['invocations'].values() for i in inv)
-            or any(b.get('label') == 'NOPE' or b.get('value') in R.FALSY for b in case['variant']['nodes'].values())
+            or any(unknown_label(b) or b.get('value') in R.FALSY for b in case['variant']['nodes'].values())
             or any(e.get('raise') for e in case['collab']['ems'])
             or bool((case['collab']['store'] or {}).get('raise')))
         return faults or max(o.max_outstanding for o in obs) >= 2
@@ -343,7 +349,7 @@ class C02(ScheduleEnumerationMixin, EngineCheck):
             cl.append('event-manager-gated')
         if (case['collab']['store'] or {}).get('raise'):
             cl.append('store-raises')
-        if any(b.get('label') == 'NOPE' for b in case['variant']['nodes'].values()):
+        if any(unknown_label(b) for b in case['variant']['nodes'].values()):
             cl.append('unknown-label')
         if any(b.get('value') in R.FALSY for b in case['variant']['nodes'].values()):
             cl.append('falsy-value')
@@ -958,7 +964,20 @@ class C09(EngineCheck):
             return S.has_kind(case['program'], 'sw')
 
         base = G.cases(**kw).map(_sanitize).filter(with_switch)
-        return st.one_of(base, base, base, base, base, base, base, switch_in_recurrent_templates(tier))
+
+        @st.composite
+        def undeclared_label(draw):
+            # one decider returns something no case declares, including what a decider returns by accident
+            case = draw(base)
+            deciders = sorted({m[2] for n in case['program']['nodes'] for _, m in n['params'] if m[0] == 'sw'})
+            dec = draw(st.sampled_from(deciders))
+            case['variant']['nodes'].setdefault(dec, {})['label'] = draw(
+                st.sampled_from([None, None, 0, '', False, 'NOPE', 'l0', 'L0 ', 'L']))
+            case['variant']['nodes'][dec].pop('labels', None)
+            return case
+
+        return st.one_of(base, base, base, base, base, base, undeclared_label(),
+                         switch_in_recurrent_templates(tier))
 
     def oracle(self, case, refres, obs):
         v = []
@@ -987,7 +1006,7 @@ class C09(EngineCheck):
                     continue
                 if any(c not in refres['demanded'] for _, c in m[3]) and len(m[3]) >= 2:
                     facts.add('lazy-case-skipped')
-                if case['variant']['nodes'].get(m[2], {}).get('label') == 'NOPE':
+                if unknown_label(case['variant']['nodes'].get(m[2], {})):
                     facts.add('unknown-label')
                 sel = [c for l, c in m[3] if l == case['variant']['nodes'].get(m[2], {}).get('label')]
                 cons = S.consumers(prog)
@@ -1034,9 +1053,16 @@ def shared_failure_templates(draw, tier):
     after = slow
     for _ in range(draw(st.integers(1, 2))):
         after = add([('k0', ['in', after])])
-    reader_kind = draw(st.sampled_from(['plain', 'plain', 'case']))
+    reader_kind = draw(st.sampled_from(['plain', 'plain', 'case', 'case-input']))
     if reader_kind == 'plain':
         reader = add([('k0', ['in', shared])])
+        outs = [cons, after, reader]
+    elif reader_kind == 'case-input':
+        # the shared node is an input of the selected case of a switch in the main graph
+        dec = add([('k0', ['in', slow if draw(st.booleans()) else 'n0'])])
+        case_a = add([('k0', ['in', shared])])
+        other = add([('k0', ['in', 'n0'])])
+        reader = add([('k0', ['sw', 'sw_reader', dec, [['L0', case_a], ['L1', other]]])])
         outs = [cons, after, reader]
     else:
         dec = add([('k0', ['in', 'n0'])])
@@ -1049,7 +1075,7 @@ def shared_failure_templates(draw, tier):
     var = {'x': 0, 'nodes': {}}
     if draw(st.integers(0, 3)):
         var['nodes'][shared] = {'outcomes': [], 'tail': 'ErrA'}
-    if reader_kind == 'case':
+    if reader_kind in ('case', 'case-input'):
         var['nodes'][dec] = {'label': 'L0'}
     held = draw(st.sampled_from([slow, slow, gate]))
     scheds = [{'kind': 'delay', 'node': held, 'after': k} for k in range(0, 12)]
